@@ -2,7 +2,7 @@
 From Coq Require Import Permutation Lia QArith Lqa.
 From SKN Require Import Base.Util Model.Dendrogram Model.Cuts Model.Hierarchy Model.Paris Proofs.DendroBase
      Proofs.HierarchyBase Proofs.HierarchyProofs Proofs.GetDendrogramProofs Proofs.TreeBuildProofs Proofs.SplitProofs
-     Proofs.ParisProofs Proofs.ParisReducible.
+     Proofs.ParisProofs Proofs.ParisReducible Gen.ParisSrc.
 Close Scope Q_scope.
 
 (** What the property demands of one dendrogram attribute over n nodes: it is valid (n - 1 rows, row t merges two
@@ -99,6 +99,17 @@ Proof.
   destruct (reorder_valid n D Hv Hm) as (D' & E & Hv' & Hs' & _).
   exists D'. split; [exact E | now apply good_of_valid_sorted].
 Qed.
+
+(** The same statement about the model of the CURRENT source ([paris_src_clamp] is regenerated from paris.pyx on
+    every run, harness/translators/paris.py): for any rounding — in particular the IEEE one of the compiled code —
+    the output is a good dendrogram PROVIDED the source clamps the heights.  On a tree where it does not (defect
+    D25) the hypothesis is false and [paris_float_inversion] shows that it is needed. *)
+Theorem paris_source_valid R hinf n G wout win D m t :
+  paris_src_clamp = true ->
+  paris_core R paris_src_clamp hinf n G wout win = Some (Ok (D, m, t)) ->
+  (forall r, In r D -> (r_height r <= hinf)%Q) ->
+  exists D', reorder_dendrogram D = Ok D' /\ good_dendrogram n D'.
+Proof. intros Hc. rewrite Hc. apply paris_clamped_valid. Qed.
 
 (** Bipartite input (_split_vars): from a good full dendrogram over n1 + n2 nodes, the row and column dendrograms are
     good dendrograms over the rows / the columns and show exactly the merges of the full one restricted to each side. *)
